@@ -4,7 +4,7 @@ the full pipeline model starts from the files' bytes; run_both (single-file, tok
 the implementation's tokens."""
 import os, re
 from common import *
-import gen_tables, gen_expr, gen_link
+import gen_tables, gen_expr, gen_link, gen_isa
 
 ARCHES = ["z80", "sm83", "6502"]
 
@@ -13,6 +13,7 @@ def setup(ck, prop):
     ck.translator = gen_tables.generate()
     ck.translator.update({"expr:" + k: v for k, v in gen_expr.generate().items()})
     ck.translator.update(gen_link.generate())
+    ck.translator.update(gen_isa.generate())
     bad = [k for k, v in ck.translator.items() if not v]
     ck.extra["translator_tables_parsed"] = sorted(k for k, v in ck.translator.items() if v)
     if bad:
